@@ -53,6 +53,10 @@ type SSpec struct {
 	Creds    string            `json:"creds,omitempty"`     // token | userpass | none
 	UseStart bool              `json:"use_start,omitempty"` // replicate from the collection's start position
 	BadPos   string            `json:"bad_pos,omitempty"`
+	// Stray (C18): the request also carries credentials of the other target kind: "sasl" a Milvus-target request with a
+	// left-over Kafka SASL block (no address), "milvus" a Kafka-target request with a stray Milvus user / password / token
+	// (no address), "both" two complete targets (must be rejected)
+	Stray    string            `json:"stray,omitempty"`
 	Kafka    bool              `json:"kafka,omitempty"`      // Kafka downstream (producer stubbed); Target is ignored
 	MapSrcDB string            `json:"map_src_db,omitempty"` // source database of the name mapping when it is not the specification's own (an invalid request)
 }
@@ -485,6 +489,9 @@ func genSOps(rng *Rng, sc *SScript, prop string) {
 				if prop == "C18" && rng.Pct(35) {
 					sp.Kafka = true
 				}
+				if prop == "C18" && rng.Pct(30) {
+					sp.Stray = Pick(rng, []string{"sasl", "milvus", "both"})
+				}
 				if rng.Pct(20) && sp.Coll != "*" {
 					sdb := sp.DB
 					if sdb == "" {
@@ -589,6 +596,11 @@ func genRawOps(rng *Rng, sc *SScript, tasks []string) {
 		{cr(mcp + `,"collection_infos":[{"name":"c7"}],"rpc_channel_info":{"name":"other-chan"}`), true},
 		{cr(mcp + `,"collection_infos":[{"name":"c7"}],"rpc_channel_info":{"position":"%%%"}`), true},
 		{cr(mcp + `,"collection_infos":[{"name":"c7"}],"name_mapping":[{"source_db":"default","target_db":"t","collection_mapping":{"zz":"yy"}}]`), true},
+		{cr(mcp + `,"collection_infos":[{"name":"c7"}],"name_mapping":[{"source_db":"a.b","target_db":"t"}]`), true},
+		{cr(mcp + `,"collection_infos":[{"name":"c7"}],"name_mapping":[{"source_db":"a.b","target_db":"t","collection_mapping":{}}]`), true},
+		{cr(mcp + `,"collection_infos":[{"name":"c7"}],"name_mapping":[{"source_db":"default","target_db":"t.u"}]`), true},
+		{cr(mcp + `,"collection_infos":[{"name":"c7"}],"name_mapping":[{"source_db":"default","target_db":"t","collection_mapping":{"c7":"x.y"}}]`), true},
+		{cr(mcp + `,"collection_infos":[{"name":"c7"}],"name_mapping":[{"source_db":"default","target_db":"t","collection_mapping":{"c.7":"xy"}}]`), true},
 		{cr(`"milvus_connect_param":{"host":"h","port":0},"collection_infos":[{"name":"c7"}]`), true},
 		{cr(`"milvus_connect_param":{"uri":"http://tgt-a:19530","username":"u"},"collection_infos":[{"name":"c7"}]`), true},
 		{cr(mcp + `,"collection_infos":[{"name":"*","positions":{"x_1v0":"AA=="}}]`), true},
